@@ -47,6 +47,14 @@ class Ob:
 
 
 class Checker:
+    @property
+    def decided(self):
+        return self._decided + [x for x in self.extra_decided if x not in self._decided]
+
+    @decided.setter
+    def decided(self, v):
+        self._decided = list(v)
+
     def __init__(self, prog: Program, pid: str, tier: str = "quick"):
         self.prog = prog
         self.pid = pid
@@ -55,7 +63,8 @@ class Checker:
         self.obs: List[Ob] = []
         self.notes: List[str] = []
         self.funcs_analysed: Dict[str, int] = {}
-        self.decided: List[str] = []
+        self._decided: List[str] = []
+        self.extra_decided: List[str] = []
         self.not_decided: List[str] = []
         self.trusted: List[str] = []
 
